@@ -168,6 +168,12 @@ def cells(tier: str) -> dict:
             b = base(kind)
             return Reschedule(b, {p: (60, 3 * H) for p in b.params()}, [])
         return f
+    def starved():
+        # r works in the first week only; a fills it (at 40 h exactly), c and d find nothing left and stay unscheduled
+        sp = Spec([Task("a", effort=P("e0"), alloc=["r"]), Task("c", effort=P("e1"), alloc=["r"]), Task("d", effort=P("e2"), alloc=["r"], deps=[Dep("c")])],
+                  [Res("r", vacation=["2025-01-13 - 2025-04-01"])], length="2w")
+        return Reschedule(sp, {"e0": (39 * H + 1800, 40 * H), "e1": (H, 2 * H), "e2": (H, 2 * H)}, [])
+    out["reschedule[starved]"] = starved
     out["reschedule[chain]"] = resched("chain")
     out["reschedule[limits]"] = resched("limits")
     return out
